@@ -14,6 +14,7 @@ import mir_eval
 from mir_eval import multipitch, transcription, transcription_velocity, util
 
 PROPERTY_ID = "C05"
+SCALE = (2, 1)   # budget multiplier (quick, thorough) applied to the n=(...) of every generated sub-property
 LEVEL = "exploration"
 EXHAUSTIVE = False  # the small-graph part is exhaustive; the event/note parts are sampled
 RULE = ("exhaustive part: every bipartite graph up to the tier's size bound (quick: |U|,|V|<=4; thorough: adds 4x5, 5x4, 5x5 "
